@@ -62,6 +62,20 @@ func loadOnce(data []byte, sizes []int, name string) (p *bcl.Prog, out, log *byt
 	return
 }
 
+// loadOnceOpts: LoadProg with every introspection option switched on (their output is discarded).
+func loadOnceOpts(data []byte, sizes []int, name string) (class, label string) {
+	var err error
+	class, _ = guard(20*time.Second, func() {
+		_, err = bcl.LoadProg(&chunkReader{data: append([]byte(nil), data...), sizes: sizes}, name,
+			bcl.OptOutput(discard{}), bcl.OptLogger(discard{}), bcl.OptDisasm(true), bcl.OptStats(true), bcl.OptTrace(true))
+	})
+	if class == "ok" && err != nil {
+		class = "err"
+		label = loadLabel(err)
+	}
+	return
+}
+
 // dumpload: parse src, dump; for every partition: load, compare parts, re-dump, disasm, execute.
 func suiteDumpLoad(c M) M {
 	src := unhex(str(c["src_hex"]))
@@ -157,7 +171,11 @@ func suiteTruncate(c M) M {
 			continue
 		}
 		_, _, _, lclass, label := loadOnce(d[:k], toInts(c["sizes"]), "x")
-		res = append(res, M{"cut": k, "class": lclass, "label": label})
+		m := M{"cut": k, "class": lclass, "label": label}
+		if oclass, olabel := loadOnceOpts(d[:k], toInts(c["sizes"]), "x"); oclass != lclass || olabel != label {
+			m["opts_class"], m["opts_label"] = oclass, olabel
+		}
+		res = append(res, m)
 	}
 	r["cuts"] = res
 	// the full dump must load
